@@ -1,6 +1,8 @@
 package main
 
 import (
+	"crypto/rsa"
+	"math/big"
 	"io"
 	"regexp"
 	"strconv"
@@ -298,6 +300,112 @@ func init() {
 				out.Violate("C10|concurrent-config-differs", pr, map[string]interface{}{"registries": "empty / SubscriberCRL=false / SubscriberCRL=true", "goroutines": 9}, nil, nil)
 			}
 			out.Stats["concurrent_crl_calls"] = 9 * 6 * len(crls)
+		}
+		// the same for the configurable certificate lints: registries that differ in one option each, used at the same time
+		// on distinct parsed copies of the same certificates; each call must get what the same call gets alone under its own
+		// registry's configuration.  The Fermat certificate's primes are about 2^520 apart: ~8000 rounds factor it, 10 do not,
+		// and the search takes milliseconds, so calls overlap.
+		{
+			type variant struct{ lo, hi string }
+			cfgs := map[string]variant{
+				"e_rsa_fermat_factorization":    {"[e_rsa_fermat_factorization]\nRounds = 10\n", "[e_rsa_fermat_factorization]\nRounds = 30000\n"},
+				"e_subj_contains_html_entities": {"[e_subj_contains_html_entities]\nSkip = true\n", "[e_subj_contains_html_entities]\nSkip = false\n"},
+				"e_subj_orgunit_in_ca_cert":     {"[e_subj_orgunit_in_ca_cert]\nCrossCert = true\n", "[e_subj_orgunit_in_ca_cert]\nCrossCert = false\n"},
+			}
+			var ders [][]byte
+			{
+				one := big.NewInt(1)
+				pb := rng.Bytes(128)
+				pb[0] |= 0xc0
+				p := nextPrime(new(big.Int).SetBytes(pb))
+				q := nextPrime(new(big.Int).Add(p, new(big.Int).Lsh(one, 520)))
+				if der, _, err := issue(leafTemplate(), &rsa.PublicKey{N: new(big.Int).Mul(p, q), E: 65537}); err == nil {
+					ders = append(ders, der)
+				}
+			}
+			for _, cc := range corpus.Certs {
+				if strings.HasPrefix(cc.File, "html_entity_ko") || strings.HasPrefix(cc.File, "orgunit_in_ca_ko") {
+					ders = append(ders, cc.DER)
+				}
+			}
+			type rk struct {
+				lint string
+				hi   bool
+			}
+			regsV := map[rk]lint.Registry{}
+			for ln, v := range cfgs {
+				for _, hi := range []bool{false, true} {
+					txt := v.lo
+					if hi {
+						txt = v.hi
+					}
+					cfg, err := lint.NewConfigFromString(txt)
+					fr, err2 := g.Filter(lint.FilterOptions{IncludeNames: []string{ln}})
+					if err != nil || err2 != nil {
+						continue
+					}
+					fr.SetConfiguration(cfg)
+					regsV[rk{ln, hi}] = fr
+				}
+			}
+			type ak struct {
+				r rk
+				o int
+			}
+			alone := map[ak]resKey{}
+			for r, reg := range regsV {
+				for oi, der := range ders {
+					if c, err := x509.ParseCertificate(der); err == nil {
+						alone[ak{r, oi}] = resultsOf(zlint.LintCertificateEx(c, reg))[r.lint]
+					}
+				}
+			}
+			var wg sync.WaitGroup
+			var mu sync.Mutex
+			var problems []string
+			calls := 0
+			reps := 6
+			if tier() == "thorough" {
+				reps = 40
+			}
+			for r, reg := range regsV {
+				for w := 0; w < 2; w++ {
+					wg.Add(1)
+					r, reg := r, reg
+					calls += reps * len(ders)
+					go func() {
+						defer wg.Done()
+						defer func() {
+							if pv := recover(); pv != nil {
+								mu.Lock()
+								problems = append(problems, fmt.Sprintf("linting panicked: %v", pv))
+								mu.Unlock()
+							}
+						}()
+						for rep := 0; rep < reps; rep++ {
+							for oi, der := range ders {
+								c, err := x509.ParseCertificate(der)
+								if err != nil {
+									continue
+								}
+								got := resultsOf(zlint.LintCertificateEx(c, reg))[r.lint]
+								if want := alone[ak{r, oi}]; got != want {
+									mu.Lock()
+									if len(problems) < 8 {
+										problems = append(problems, fmt.Sprintf("%s on certificate #%d under its registry's configuration (%s option) gives %v while registries with the other option value are in use, %v alone", r.lint, oi, map[bool]string{false: "low", true: "high"}[r.hi], got, want))
+									}
+									mu.Unlock()
+								}
+							}
+						}
+					}()
+				}
+			}
+			wg.Wait()
+			for _, pr := range problems {
+				out.Violate("C10|concurrent-cert-config-differs", pr, map[string]interface{}{"configurations": cfgs, "goroutines": 2 * len(regsV), "ders": len(ders)}, nil, nil)
+			}
+			out.Stats["concurrent_configured_cert_calls"] = calls
 		}
 		// concurrent Filter calls on the shared registry (every goroutine walks the reference filters in its own order)
 		{
